@@ -595,7 +595,49 @@ func runResumeReport(c *Ctx) {
 								}
 							}
 						}
-						c.Check(len(extra) == 0, "hash-repair/mismatch-alone-decides", inner.Pos(), "every hash mismatch schedules the re-send",
+						// one further conjunct is sound: `<verified chunk> < F` where F is the value stored into resumePlan.forceSendFrom -
+						// when it does not hold the chunk lies in the force-send range and goes out with the ordinary schedule
+						// (which hands nothing out before the verdict); an explicit re-send would dispatch it twice (F43)
+						if len(extra) == 1 {
+							for _, a := range Implied(inner.Cond, true) {
+								be, ok := ast.Unparen(a.E).(*ast.BinaryExpr)
+								if !ok || !a.Val || (be.Op != token.LSS && be.Op != token.GTR) {
+									continue
+								}
+								if be.Op == token.GTR { // F > v
+									be = &ast.BinaryExpr{X: be.Y, Op: token.LSS, Y: be.X}
+								}
+								fo := ObjOf(g.Info(), be.Y)
+								if fo == nil {
+									continue
+								}
+								inPlan := false
+								for h := g; h != nil; h = h.Parent {
+									ast.Inspect(h.Body, func(m ast.Node) bool {
+										if kv, ok := m.(*ast.KeyValueExpr); ok {
+											if k, ok := kv.Key.(*ast.Ident); ok && k.Name == "forceSendFrom" && ObjOf(h.Info(), kv.Value) == fo {
+												inPlan = true
+											}
+										}
+										return true
+									})
+								}
+								// the left side is the chunk that was hashed: the argument of hashFileChunk / the chunk assigned to resendChunk
+								sameChunk := false
+								ast.Inspect(inner.Body, func(m ast.Node) bool {
+									if a2, ok := m.(*ast.AssignStmt); ok && len(a2.Lhs) == 1 && len(a2.Rhs) == 1 {
+										if sel, ok := ast.Unparen(a2.Lhs[0]).(*ast.SelectorExpr); ok && sel.Sel.Name == "resendChunk" && types.ExprString(a2.Rhs[0]) == types.ExprString(be.X) {
+											sameChunk = true
+										}
+									}
+									return true
+								})
+								if inPlan && sameChunk && types.ExprString(a.E) == strings.TrimSuffix(strings.TrimPrefix(extra[0], "!("), ")") {
+									extra = nil
+								}
+							}
+						}
+						c.Check(len(extra) == 0, "hash-repair/mismatch-alone-decides", inner.Pos(), "every hash mismatch schedules the re-send (or leaves the chunk to the force-send range)",
 							"a verification-hash mismatch schedules the re-send only if also "+strings.Join(extra, " && ")+": when that does not hold the damaged chunk is neither re-sent explicitly nor (for a file reported all-complete, where no tail is forced) with the schedule, FileEnd goes out and both sides report success")
 					}
 				}
